@@ -47,7 +47,23 @@ impl BodyCb {
     ensures quiet(old(c), final(c)), final(c).log@ == old(c).log@.push(Ev::Body(try_depth_of(old(c).try_attributes), loop_try_depth_of(old(c).loop_attributes)))
   { }
 }
+pub const SELF: &'static str = "self";
+pub uninterp spec fn name_id(s: &str) -> int;
+/// the slot and state a name resolves to in the function being compiled (the locals as the resolver and the declarations left them: A-resolver;
+/// the general resolve_local is the varcomp unit)
+pub uninterp spec fn local_of(name: int) -> (u8, SymbolState);
+/// the state of the receiver slot (captured by a closure or not)
+pub open spec fn recv_state() -> SymbolState { local_of(name_id(SELF)).1 }
 impl Compiler {
+  #[verifier::external_body] pub fn resolve_local(&mut self, name: &str) -> (r: Option<(u8, SymbolState)>)
+    ensures quiet(old(self), final(self)), final(self).log == old(self).log, r == Some(local_of(name_id(name))),
+      // in a method or initialiser the receiver is slot 0, an initialised local (possibly captured)
+      name_id(name) == name_id(SELF) ==> local_of(name_id(name)).0 == 0 && (recv_state() == SymbolState::LocalInitialized || recv_state() == SymbolState::LocalCaptured) { None }
+  /// varcomp unit: a plain local is read / written in its slot, a captured one through its box
+  #[verifier::external_body] pub fn emit_local_get(&mut self, state: SymbolState, index: u8, end: u32)
+    ensures quiet(old(self), final(self)), final(self).log@ == old(self).log@.push(Ev::Emit(if state == SymbolState::LocalCaptured { SymbolicByteCode::GetBox(index) } else { SymbolicByteCode::GetLocal(index) })) { }
+  #[verifier::external_body] pub fn emit_local_set(&mut self, state: SymbolState, index: u8, end: u32)
+    ensures quiet(old(self), final(self)), final(self).log@ == old(self).log@.push(Ev::Emit(if state == SymbolState::LocalCaptured { SymbolicByteCode::SetBox(index) } else { SymbolicByteCode::SetLocal(index) })) { }
   #[verifier::external_body] pub fn emit_byte(&mut self, op: SymbolicByteCode, line: u32) ensures quiet(old(self), final(self)), final(self).log@ == old(self).log@.push(Ev::Emit(op)) { }
   #[verifier::external_body] pub fn expr(&mut self, e: &Expr) ensures quiet(old(self), final(self)), final(self).log@ == old(self).log@.push(Ev::Expr(e.id)) { }
   #[verifier::external_body] pub fn block(&mut self, b: &Block) ensures quiet(old(self), final(self)), final(self).log@ == old(self).log@.push(Ev::Block(b.id, try_depth_of(old(self).try_attributes))) { }
